@@ -599,3 +599,62 @@ def acceptance_mismatch(rels, roles, grid, reference):
     if used == 0:
         return "no branch fact mentions the checked quantities (guard missing?)"
     return None
+
+
+# ------------------------------------------------------------------------------------------------ container invariants
+SHRINKERS = ("clear", "pop", "truncate", "remove", "swap_remove", "drain", "retain", "split_off", "dedup", "take", "replace",
+             "set_len", "resize", "shrink_to", "pop_front", "pop_back", "retain_mut", "drain_filter", "extract_if")
+
+
+def field_min_len(W, adt, field):
+    """Lower bound on the length of a Vec-typed private field that holds in every state: the minimum over all constructors of the
+    initial length, provided no function applies a shrinking operation to the field itself (elements may be cleared).
+    Returns (min_len, why) or (0, why)."""
+    import re
+    P = W.prog
+    a = P.adts.get(adt)
+    if a is None:
+        return 0, "unknown type"
+    f = [x for x in a["variants"][0]["fields"] if x["name"] == field]
+    if not f or f[0]["vis"] == "pub":
+        return 0, "field is public"
+    cs = W.ctor_fields(adt)
+    if not cs:
+        return 0, "no constructor found"
+    lens = []
+    for (fn, bb, idx, fields) in cs:
+        t = fields.get(field)
+        n = None
+        if is_call(t) and callee_name(t[1]) in ("box_assume_init_into_vec_unsafe", "into_vec"):
+            site = t[3]
+            sfn = P.fns[site[0]]
+            aty = sfn.blocks[site[1]].term["arg_tys"][0]
+            m = re.search(r"; (\d+)\]", aty)
+            if m:
+                n = int(m.group(1))
+        elif is_call(t) and callee_name(t[1]) == "from_elem":
+            if t[2][1][0] == "int":
+                n = t[2][1][1]
+        if n is None:
+            n = 0
+        lens.append(n)
+    # shrinking operations applied to the field itself, anywhere in the crate
+    for fn in P.fns.values():
+        if fn.impl_self != adt and adt.rsplit("::", 1)[0] not in fn.path:
+            continue
+        ev = W.ev(fn.path)
+        for b, t in fn.calls():
+            if not t["args"] or not t["arg_tys"][0].startswith("&mut"):
+                continue
+            ap = ev.arg_path(t["args"][0])
+            if ap and ap[1] == (field,) and callee_name(t["fn"].get("path", "")) in SHRINKERS:
+                base_ty = fn.locals[ap[0]]["ty"]
+                if adt.split("::")[-1] in base_ty:
+                    return 0, "%s applies %s to the field" % (fn.path, callee_name(t["fn"]["path"]))
+        for bl in fn.blocks:
+            for st in bl.stmts:
+                if st["k"] == "assign" and st["dst"].get("p"):
+                    pj = [e for e in st["dst"]["p"] if isinstance(e, dict) and "f" in e]
+                    if pj and pj[-1].get("name") == field and pj[-1].get("adt") == adt:
+                        return 0, "%s assigns the field" % fn.path
+    return min(lens), "initialised with >= %d element(s) by every constructor and never shrunk" % min(lens)
